@@ -77,6 +77,17 @@ static vj::value handle(const vj::value& c) {
     if (op == "arange") return project1d(view::arange((int)g["start"].as_int(), (int)g["stop"].as_int(), (int)g["step"].as_int(), nm::int64));
     if (op == "arange2") return project1d(view::arange((int)g["start"].as_int(), (int)g["stop"].as_int(), nm::int64));
     if (op == "arange1") return project1d(view::arange((int)g["stop"].as_int(), nm::int64));
+    if (op == "arange_at") {
+        // large ranges: length plus the elements at listed indices (the view is lazy: no storage behind it)
+        auto sample = [&](const auto& v) {
+            auto shp = shape_vec(nm::shape(v)); vj::value el = vj::value::array();
+            for (size_t q = 0; q < g["at"].size(); q++) el.push(elem_value(v((size_t)g["at"][q].as_int())));
+            vj::value r = vj::value::object(); r.set("ok", true).set("crash", "").set("shape", vj::value(shp)).set("elems", el); return r; };
+        long form = g["form"].as_int();
+        if (form == 1) return sample(view::arange((int)g["stop"].as_int(), nm::int64));
+        if (form == 2) return sample(view::arange((int)g["start"].as_int(), (int)g["stop"].as_int(), nm::int64));
+        return sample(view::arange((int)g["start"].as_int(), (int)g["stop"].as_int(), (int)g["step"].as_int(), nm::int64));
+    }
     if (op == "linspace") {
         // values are logged multiplied by the case's denominator so that they are integers (exact for the reference)
         auto scale = [&](auto v) -> vj::value {
